@@ -1,2 +1,354 @@
+/* Correspondence harness, part 2: operations over item trees (decoder, serializer, copy).
+ * Canonical tree text (one token, no spaces):
+ *   u8(V) u16(V) u32(V) u64(V)  n8(V) ...            integers at their stored width (V = raw argument)
+ *   b(HEX) / B[b(HEX),...]      t(HEX) / T[t(HEX),...]  definite / indefinite (chunked) strings; HEX "-" = empty
+ *   A[x,...] / a[x,...]         M[k:v,...] / m[k:v,...]  definite / indefinite arrays and maps
+ *   G(N,x)                      tag
+ *   h(BITS32) s(BITS32) d(BITS64)                      floats: bit pattern of the stored C float/double (decimal)
+ *   c(V)                                               simple value / ctrl (20 false 21 true 22 null 23 undef)
+ */
 #include "hcommon.h"
-int tree_op(int argc, char** w) { (void)argc; (void)w; return 0; }
+#include "cbor/internal/memory_utils.h"
+
+/* ---------------------------------------------------------------- printing */
+struct sb { char* p; size_t len, cap; };
+static void sb_need(struct sb* s, size_t n) {
+  if (s->cap - s->len < n + 1) { s->cap = (s->cap + n) * 2 + 64; s->p = realloc(s->p, s->cap); }
+}
+static void sb_printf(struct sb* s, const char* fmt, ...) {
+  va_list ap; sb_need(s, 64);
+  va_start(ap, fmt); s->len += vsnprintf(s->p + s->len, s->cap - s->len, fmt, ap); va_end(ap);
+}
+static void sb_hex(struct sb* s, const unsigned char* d, size_t n) {
+  sb_need(s, 2 * n + 2);
+  if (n == 0) { s->p[s->len++] = '-'; s->p[s->len] = 0; return; }
+  for (size_t i = 0; i < n; i++) s->len += sprintf(s->p + s->len, "%02x", d[i]);
+}
+static uint32_t fbits(float f) { uint32_t u; memcpy(&u, &f, 4); return u; }
+static uint64_t dbits(double f) { uint64_t u; memcpy(&u, &f, 8); return u; }
+
+/* prints without touching any reference count; checks refcount==1 on every node into *all_rc1 */
+static void print_item(struct sb* s, const cbor_item_t* it, int* all_rc1, int depth) {
+  static const int W[4] = {8, 16, 32, 64};
+  if (it == NULL) { sb_printf(s, "NULL"); return; }
+  if (it->refcount != 1 && all_rc1) *all_rc1 = 0;
+  switch (it->type) {
+    case CBOR_TYPE_UINT: case CBOR_TYPE_NEGINT: {
+      uint64_t v = 0;
+      switch (it->metadata.int_metadata.width) {
+        case CBOR_INT_8: v = *it->data; break;
+        case CBOR_INT_16: v = *(uint16_t*)it->data; break;
+        case CBOR_INT_32: v = *(uint32_t*)it->data; break;
+        case CBOR_INT_64: v = *(uint64_t*)it->data; break;
+      }
+      sb_printf(s, "%c%d(%" PRIu64 ")", it->type == CBOR_TYPE_UINT ? 'u' : 'n', W[it->metadata.int_metadata.width], v);
+      break;
+    }
+    case CBOR_TYPE_BYTESTRING: case CBOR_TYPE_STRING: {
+      char lo = it->type == CBOR_TYPE_BYTESTRING ? 'b' : 't', up = it->type == CBOR_TYPE_BYTESTRING ? 'B' : 'T';
+      /* bytestring_metadata and string_metadata start with {length, [codepoint_count,] type}: read through the API-neutral way */
+      int definite = it->type == CBOR_TYPE_BYTESTRING ? it->metadata.bytestring_metadata.type == _CBOR_METADATA_DEFINITE
+                                                     : it->metadata.string_metadata.type == _CBOR_METADATA_DEFINITE;
+      if (definite) {
+        size_t n = it->type == CBOR_TYPE_BYTESTRING ? it->metadata.bytestring_metadata.length : it->metadata.string_metadata.length;
+        sb_printf(s, "%c(", lo); sb_hex(s, it->data, n); sb_printf(s, ")");
+      } else {
+        struct cbor_indefinite_string_data* d = (struct cbor_indefinite_string_data*)it->data;
+        sb_printf(s, "%c[", up);
+        for (size_t i = 0; i < d->chunk_count; i++) { if (i) sb_printf(s, ","); print_item(s, d->chunks[i], all_rc1, depth + 1); }
+        sb_printf(s, "]");
+      }
+      break;
+    }
+    case CBOR_TYPE_ARRAY: {
+      int definite = it->metadata.array_metadata.type == _CBOR_METADATA_DEFINITE;
+      sb_printf(s, definite ? "A[" : "a[");
+      for (size_t i = 0; i < it->metadata.array_metadata.end_ptr; i++) {
+        if (i) sb_printf(s, ",");
+        print_item(s, ((cbor_item_t**)it->data)[i], all_rc1, depth + 1);
+      }
+      sb_printf(s, "]");
+      break;
+    }
+    case CBOR_TYPE_MAP: {
+      int definite = it->metadata.map_metadata.type == _CBOR_METADATA_DEFINITE;
+      sb_printf(s, definite ? "M[" : "m[");
+      struct cbor_pair* p = (struct cbor_pair*)it->data;
+      for (size_t i = 0; i < it->metadata.map_metadata.end_ptr; i++) {
+        if (i) sb_printf(s, ",");
+        print_item(s, p[i].key, all_rc1, depth + 1); sb_printf(s, ":"); print_item(s, p[i].value, all_rc1, depth + 1);
+      }
+      sb_printf(s, "]");
+      break;
+    }
+    case CBOR_TYPE_TAG:
+      sb_printf(s, "G(%" PRIu64 ",", it->metadata.tag_metadata.value);
+      print_item(s, it->metadata.tag_metadata.tagged_item, all_rc1, depth + 1);
+      sb_printf(s, ")");
+      break;
+    case CBOR_TYPE_FLOAT_CTRL:
+      switch (it->metadata.float_ctrl_metadata.width) {
+        case CBOR_FLOAT_0: sb_printf(s, "c(%u)", it->metadata.float_ctrl_metadata.ctrl); break;
+        case CBOR_FLOAT_16: sb_printf(s, "h(%u)", fbits(*(float*)it->data)); break;
+        case CBOR_FLOAT_32: sb_printf(s, "s(%u)", fbits(*(float*)it->data)); break;
+        case CBOR_FLOAT_64: sb_printf(s, "d(%" PRIu64 ")", dbits(*(double*)it->data)); break;
+      }
+      break;
+  }
+}
+
+/* filled: every definite container has size == allocated (C02) */
+static int all_filled(const cbor_item_t* it) {
+  if (!it) return 1;
+  switch (it->type) {
+    case CBOR_TYPE_ARRAY: {
+      if (it->metadata.array_metadata.type == _CBOR_METADATA_DEFINITE &&
+          it->metadata.array_metadata.end_ptr != it->metadata.array_metadata.allocated) return 0;
+      for (size_t i = 0; i < it->metadata.array_metadata.end_ptr; i++) if (!all_filled(((cbor_item_t**)it->data)[i])) return 0;
+      return 1;
+    }
+    case CBOR_TYPE_MAP: {
+      if (it->metadata.map_metadata.type == _CBOR_METADATA_DEFINITE &&
+          it->metadata.map_metadata.end_ptr != it->metadata.map_metadata.allocated) return 0;
+      struct cbor_pair* p = (struct cbor_pair*)it->data;
+      for (size_t i = 0; i < it->metadata.map_metadata.end_ptr; i++) if (!all_filled(p[i].key) || !all_filled(p[i].value)) return 0;
+      return 1;
+    }
+    case CBOR_TYPE_TAG: return all_filled(it->metadata.tag_metadata.tagged_item);
+    default: return 1;
+  }
+}
+
+/* ---------------------------------------------------------------- parsing tree text -> items via the construction API */
+static const char* P; /* cursor */
+static int perr;
+static uint64_t p_num(void) { char* e; uint64_t v = strtoull(P, &e, 10); if (e == P) perr = 1; P = e; return v; }
+static int p_eat(char c) { if (*P == c) { P++; return 1; } perr = 1; return 0; }
+static size_t p_hex(unsigned char** out) {
+  size_t n = 0; const char* q = P;
+  if (*P == '-') { P++; *out = malloc(1); return 0; }
+  while ((*q >= '0' && *q <= '9') || (*q >= 'a' && *q <= 'f')) q++;
+  n = (size_t)(q - P) / 2; *out = malloc(n ? n : 1);
+  for (size_t i = 0; i < n; i++) { unsigned v; sscanf(P + 2 * i, "%2x", &v); (*out)[i] = (unsigned char)v; }
+  P = q; return n;
+}
+static cbor_item_t* p_item(void);
+static cbor_item_t* p_string(int text) {
+  unsigned char* d; p_eat('('); size_t n = p_hex(&d); p_eat(')');
+  cbor_item_t* r = text ? cbor_build_stringn((const char*)d, n) : cbor_build_bytestring(d, n);
+  free(d); return r;
+}
+static cbor_item_t* p_item(void) {
+  char c = *P++;
+  cbor_item_t* r = NULL;
+  if (perr) return NULL;
+  switch (c) {
+    case 'u': case 'n': {
+      int w = (int)p_num(); p_eat('('); uint64_t v = p_num(); p_eat(')');
+      switch (w) {
+        case 8: r = cbor_build_uint8((uint8_t)v); break; case 16: r = cbor_build_uint16((uint16_t)v); break;
+        case 32: r = cbor_build_uint32((uint32_t)v); break; case 64: r = cbor_build_uint64(v); break;
+        default: perr = 1;
+      }
+      if (r && c == 'n') cbor_mark_negint(r);
+      return r;
+    }
+    case 'b': return p_string(0);
+    case 't': return p_string(1);
+    case 'B': case 'T': {
+      r = c == 'B' ? cbor_new_indefinite_bytestring() : cbor_new_indefinite_string();
+      p_eat('[');
+      while (*P != ']' && !perr) {
+        P++; /* b or t */
+        cbor_item_t* ch = p_string(c == 'T');
+        if (c == 'B') { if (!cbor_bytestring_add_chunk(r, ch)) perr = 2; } else { if (!cbor_string_add_chunk(r, ch)) perr = 2; }
+        cbor_decref(&ch);
+        if (*P == ',') P++;
+      }
+      p_eat(']'); return r;
+    }
+    case 'A': case 'a': {
+      /* definite arrays are created with capacity = number of elements given */
+      const char* save = P; int depth = 0; size_t n = 0; const char* q = P + 1;
+      if (*q != ']') { n = 1; for (; *q; q++) { if (*q == '[' || *q == '(') depth++; else if (*q == ')') depth--; else if (*q == ']') { if (depth == 0) break; depth--; } else if (*q == ',' && depth == 0) n++; } }
+      P = save;
+      r = c == 'A' ? cbor_new_definite_array(n) : cbor_new_indefinite_array();
+      p_eat('[');
+      while (*P != ']' && !perr) {
+        cbor_item_t* x = p_item();
+        if (!x) { perr = 1; break; }
+        if (!cbor_array_push(r, x)) perr = 2;
+        cbor_decref(&x);
+        if (*P == ',') P++;
+      }
+      p_eat(']'); return r;
+    }
+    case 'M': case 'm': {
+      const char* save = P; int depth = 0; size_t n = 0; const char* q = P + 1;
+      if (*q != ']') { n = 1; for (; *q; q++) { if (*q == '[' || *q == '(') depth++; else if (*q == ')') depth--; else if (*q == ']') { if (depth == 0) break; depth--; } else if (*q == ',' && depth == 0) n++; } }
+      P = save;
+      r = c == 'M' ? cbor_new_definite_map(n) : cbor_new_indefinite_map();
+      p_eat('[');
+      while (*P != ']' && !perr) {
+        cbor_item_t* k = p_item(); p_eat(':'); cbor_item_t* v = p_item();
+        if (!k || !v) { perr = 1; break; }
+        if (!cbor_map_add(r, (struct cbor_pair){.key = k, .value = v})) perr = 2;
+        cbor_decref(&k); cbor_decref(&v);
+        if (*P == ',') P++;
+      }
+      p_eat(']'); return r;
+    }
+    case 'G': {
+      p_eat('('); uint64_t v = p_num(); p_eat(',');
+      cbor_item_t* x = p_item(); p_eat(')');
+      if (!x) { perr = 1; return NULL; }
+      r = cbor_build_tag(v, x); cbor_decref(&x); return r;
+    }
+    case 'h': case 's': {
+      p_eat('('); uint32_t b = (uint32_t)p_num(); p_eat(')');
+      float f; memcpy(&f, &b, 4);
+      return c == 'h' ? cbor_build_float2(f) : cbor_build_float4(f);
+    }
+    case 'd': { p_eat('('); uint64_t b = p_num(); p_eat(')'); double f; memcpy(&f, &b, 8); return cbor_build_float8(f); }
+    case 'c': { p_eat('('); uint64_t v = p_num(); p_eat(')'); return cbor_build_ctrl((uint8_t)v); }
+    default: perr = 1; return NULL;
+  }
+}
+cbor_item_t* parse_tree(const char* text) {
+  P = text; perr = 0;
+  cbor_item_t* r = p_item();
+  if (perr || *P) { if (r) cbor_decref(&r); return NULL; }
+  return r;
+}
+
+static const char* err_name(cbor_error_code c) {
+  switch (c) {
+    case CBOR_ERR_NONE: return "NONE"; case CBOR_ERR_NOTENOUGHDATA: return "NOTENOUGHDATA"; case CBOR_ERR_NODATA: return "NODATA";
+    case CBOR_ERR_MALFORMATED: return "MALFORMATED"; case CBOR_ERR_MEMERROR: return "MEMERROR"; case CBOR_ERR_SYNTAXERROR: return "SYNTAXERROR";
+  }
+  return "?";
+}
+
+/* LOAD <hex> <mode> <k> [cap]
+ *   OK <tree> read=R reqs=N live=B rc1=0|1 filled=0|1 size=S ser=HEX|= sern1=RET copy=ok|DIFF|null final=LIVE
+ *   ERR <code> pos=P read=R reqs=N live=B          (live must be the count before the call) */
+static void op_load(const char* hex, int mode, long k, size_t cap) {
+  struct xbuf in = hex_to_exact(hex);
+  struct cbor_load_result res; memset(&res, 0xAB, sizeof res);
+  long live0 = h_alloc_live();
+  h_alloc_reset_counters(); h_alloc_schedule(mode, k, NULL); h_alloc_set_cap(cap);
+  cbor_item_t* item = cbor_load(in.p, in.n, &res);
+  long reqs = h_alloc_requests();
+  h_alloc_schedule(0, 0, NULL); h_alloc_set_cap(0);
+  /* the input may be released at once (C02) */
+  memset(in.base, 0xDD, in.n ? in.n : 1);
+  size_t inlen = in.n;
+  unsigned char* incopy = malloc(inlen ? inlen : 1); hex_decode(hex, incopy, inlen);
+  free_exact(in);
+  if (item == NULL) {
+    printf("ERR %s pos=%zu read=%zu reqs=%ld live=%ld\n", err_name(res.error.code), res.error.position, res.read, reqs,
+           h_alloc_live() - live0);
+    free(incopy); return;
+  }
+  struct sb s = {0}; int rc1 = 1;
+  print_item(&s, item, &rc1, 0);
+  long live = h_alloc_live() - live0;
+  printf("OK %s code=%s read=%zu reqs=%ld live=%ld rc1=%d filled=%d", s.p, err_name(res.error.code), res.read, reqs, live, rc1, all_filled(item));
+  /* client operations on the decoded tree (C01): size, serialize (exact and one short), describe, copy, release */
+  size_t sz = cbor_serialized_size(item);
+  printf(" size=%zu", sz);
+  if (sz > 0 && sz < (1u << 24)) {
+    struct xbuf out = exact_copy(NULL, 0); free_exact(out);
+    unsigned char* ob = malloc(sz); memset(ob, 0xEE, sz);
+    size_t w = cbor_serialize(item, ob, sz);
+    if (w == res.read && inlen >= w && memcmp(ob, incopy, w) == 0) printf(" ser==");
+    else { printf(" ser=%zu:", w); print_hex(ob, w); }
+    free(ob);
+    unsigned char* ob2 = malloc(sz > 1 ? sz - 1 : 1);
+    printf(" sern1=%zu", cbor_serialize(item, ob2, sz - 1));
+    free(ob2);
+  }
+#if CBOR_PRETTY_PRINTER
+  { FILE* dn = fopen("/dev/null", "w"); if (dn) { cbor_describe(item, dn); fclose(dn); } }
+#endif
+  cbor_item_t* cp = cbor_copy(item);
+  if (!cp) printf(" copy=null");
+  else {
+    struct sb s2 = {0}; int rc1b = 1; print_item(&s2, cp, &rc1b, 0);
+    printf(" copy=%s", (strcmp(s.p, s2.p) == 0 && rc1b) ? "ok" : "DIFF");
+    free(s2.p); cbor_decref(&cp);
+  }
+  cbor_decref(&item);
+  printf(" final=%ld\n", h_alloc_live() - live0);
+  free(s.p); free(incopy);
+}
+
+/* SER <tree> <n>  ->  <ret> <buffer hex (n bytes, 0xEE prefill)> size=<cbor_serialized_size> */
+static void op_ser(const char* tree, size_t n) {
+  cbor_item_t* it = parse_tree(tree);
+  if (!it) { printf("bad-tree\n"); return; }
+  struct sb s = {0}; print_item(&s, it, NULL, 0);
+  unsigned char* base = malloc(n ? n : 1); unsigned char* b = n ? base : base + 1;
+  memset(base, 0xEE, n ? n : 1);
+  long r0 = h_alloc_requests();
+  size_t sz = cbor_serialized_size(it);
+  size_t w = cbor_serialize(it, b, n);
+  long r1 = h_alloc_requests();
+  struct sb s2 = {0}; print_item(&s2, it, NULL, 0);
+  printf("%zu ", w); print_hex(b, n); printf(" size=%zu noalloc=%d unchanged=%d\n", sz, r1 == r0, strcmp(s.p, s2.p) == 0);
+  free(base); free(s.p); free(s2.p);
+  cbor_decref(&it);
+}
+
+/* SERA <tree> <mode> <k>  ->  <ret> <buffer_size> <hex> reqs=<n> live=<delta> */
+static void op_sera(const char* tree, int mode, long k) {
+  cbor_item_t* it = parse_tree(tree);
+  if (!it) { printf("bad-tree\n"); return; }
+  unsigned char* buf = (unsigned char*)0x1; size_t bs = 12345;
+  long live0 = h_alloc_live();
+  h_alloc_reset_counters(); h_alloc_schedule(mode, k, NULL);
+  size_t w = cbor_serialize_alloc(it, &buf, &bs);
+  long reqs = h_alloc_requests(); size_t lastsz = h_alloc_last_request_size();
+  h_alloc_schedule(0, 0, NULL);
+  printf("%zu %zu ", w, bs);
+  if (buf) print_hex(buf, w); else printf("null");
+  printf(" reqs=%ld reqsize=%zu live=%ld\n", reqs, reqs ? lastsz : 0, h_alloc_live() - live0);
+  if (buf) { /* release through the installed allocator's free */ extern _cbor_free_t _cbor_free; _cbor_free(buf); }
+  cbor_decref(&it);
+}
+
+/* ROUND <tree>: serialize, reload, compare tree text, reserialize  ->  <hex> reload=<tree|ERR..> read=<n> again=<=|hex> */
+static void op_round(const char* tree) {
+  cbor_item_t* it = parse_tree(tree);
+  if (!it) { printf("bad-tree\n"); return; }
+  size_t sz = cbor_serialized_size(it);
+  if (sz == 0 || sz > (1u << 24)) { printf("size=%zu\n", sz); cbor_decref(&it); return; }
+  unsigned char* b = malloc(sz);
+  size_t w = cbor_serialize(it, b, sz);
+  print_hex(b, w);
+  struct cbor_load_result res;
+  cbor_item_t* back = cbor_load(b, w, &res);
+  if (!back) printf(" reload=ERR:%s:%zu", err_name(res.error.code), res.error.position);
+  else {
+    struct sb s = {0}; print_item(&s, back, NULL, 0);
+    printf(" reload=%s read=%zu", s.p, res.read);
+    unsigned char* b2 = malloc(sz); size_t w2 = cbor_serialize(back, b2, sz);
+    if (w2 == w && memcmp(b, b2, w) == 0) printf(" again=="); else { printf(" again="); print_hex(b2, w2); }
+    free(b2); free(s.p); cbor_decref(&back);
+  }
+  printf("\n");
+  free(b); cbor_decref(&it);
+}
+
+int hist_op(int argc, char** w);
+
+int tree_op(int argc, char** w) {
+  if (!strcmp(w[0], "LOAD") && argc >= 2) {
+    op_load(w[1], argc > 2 ? atoi(w[2]) : 0, argc > 3 ? atol(w[3]) : 0, argc > 4 ? strtoull(w[4], 0, 10) : 0);
+    return 1;
+  }
+  if (!strcmp(w[0], "SER") && argc == 3) { op_ser(w[1], strtoull(w[2], 0, 10)); return 1; }
+  if (!strcmp(w[0], "SERA") && argc >= 2) { op_sera(w[1], argc > 2 ? atoi(w[2]) : 0, argc > 3 ? atol(w[3]) : 0); return 1; }
+  if (!strcmp(w[0], "ROUND") && argc == 2) { op_round(w[1]); return 1; }
+  return hist_op(argc, w);
+}
